@@ -2092,6 +2092,12 @@ impl Lexer<'_> {
             '%' => {
                 match self.cursor.peek_next() {
                     '*' => {
+                        // Clear checkpoint if we had. E.g. in case of `arg%*c;`,
+                        // `arg` on the previous iteration would have set the checkpoint
+                        // but now we know that no WS follows `arg` so we won't need
+                        // to rollback so far back.
+                        self.clear_checkpoint();
+
                         self.start_token();
                         self.lex_macro_comment();
                     }
